@@ -96,10 +96,13 @@ def classify_tsan(rep):
 def judge(stdout, workers, producers, items, mode):
     """Independent reading of C15 on a handler log.  Returns None or a description."""
     lines = stdout.strip().split("\n")
-    m = re.match(r"handled (\d+) overlap (\d+)", lines[0]) if lines and lines[0] else None
+    m = re.match(r"handled (\d+) overlap (\d+)(?: alive (\d+) of (\d+))?", lines[0]) if lines and lines[0] else None
     if not m:
         return "probe printed no summary: %r" % stdout[:200]
     n, overlap = int(m.group(1)), int(m.group(2))
+    if mode == 2 and m.group(3) is not None and int(m.group(3)) < int(m.group(4)):
+        return "worker threads lost while the dispatcher is alive: only %s of %s workers took a rendezvous job (%d of %d items handled)" % (
+            m.group(3), m.group(4), n, producers * items)
     log = [tuple(int(x) for x in l.split()) for l in lines[1:] if l.strip()]
     if len(log) != n:
         return "log length %d differs from summary %d" % (len(log), n)
@@ -121,7 +124,7 @@ def judge(stdout, workers, producers, items, mode):
             seqs = [s for (q, s) in log if q == p]
             if seqs != list(range(len(seqs))):
                 return "producer %d: handled items are not a gap-free prefix: %r" % (p, seqs[:10])
-    if mode == 0 and n != producers * items:
+    if mode in (0, 2) and n != producers * items:
         return "dispatcher alive and idle, yet only %d of %d items were handled" % (n, producers * items)
     return None
 
@@ -168,15 +171,26 @@ def run_probe(ctx, binary, tsan, compiler, variant, args, expect_known=None):
 
 
 def arg_sets(ctx, rng, n):
-    res = [(1, 2, 50, 1, 0), (1, 1, 100, 0, 0), (1, 3, 40, 0, 20), (2, 2, 60, 1, 10), (3, 4, 30, 0, 0), (1, 2, 30, 1, 50)]
+    res = [(1, 2, 50, 1, 0), (1, 1, 100, 0, 0), (1, 3, 40, 0, 20), (2, 2, 60, 1, 10), (3, 4, 30, 0, 0), (1, 2, 30, 1, 50),
+           (3, 3, 200, 2, 0), (2, 1, 300, 2, 0), (4, 2, 400, 2, 0)]            # mode 2: multi-worker rendezvous
+    if ctx.broken or not ctx.quick:
+        res += [(3, 1, 300, 2, 0), (2, 2, 300, 2, 0), (4, 1, 500, 2, 0), (3, 2, 400, 2, 5)]
     while len(res) < n:
-        res.append((rng.choice([1, 1, 1, 2, 3]), rng.randint(1, 4), rng.choice([1, 5, 40, 150]), rng.choice([0, 1]),
+        w = rng.choice([1, 1, 1, 2, 3, 4])
+        res.append((w, rng.randint(1, 4), rng.choice([1, 5, 40, 150]), rng.choice([0, 1, 2] if w >= 2 else [0, 1]),
                     rng.choice([0, 0, 5, 50])))
     return res[:n]
 
 
 def run(ctx):
     rng = ctx.rng
+    # 0 the real headers over the RAW scheduler shim, explored without the model (lost / spurious wake-ups, workers that
+    #   leave their loop): a few runs always, many once a proof or tie is broken and in the thorough tier; first, because
+    #   it is fast and its failing runs are deterministic schedules
+    from .. import c15search
+    c15search.run(ctx)
+    if ctx.broken and len(ctx.violations) >= 4:
+        return
     with kj.scratch() as d:
         compilers = ["g++"] + (["clang++"] if not ctx.quick or ctx.broken else [])
         bins = {}
@@ -206,18 +220,19 @@ def run(ctx):
                 if len(ctx.violations) >= 6:          # enough concrete failing inputs: stop searching
                     break
                 run_probe(ctx, b, tsan, comp, variant, a)
-    # 3 schedule replay of the real headers against the extracted LTS
-    try:
-        from .. import c15replay
-    except ImportError:
-        c15replay = None
-    if c15replay is not None:
-        c15replay.run(ctx)
+    if len(ctx.violations) >= 6:
+        return
+    # 4 schedule replay of the real headers against the extracted LTS
+    from .. import c15replay
+    c15replay.run(ctx)
 
 
 def replay(ctx, data):
     """True iff the property holds for this probe configuration (or schedule) on the current headers."""
     if "args" not in data:
+        if data.get("explore"):
+            from .. import c15search
+            return c15search.replay(ctx, data)
         if "schedule" in data:
             from .. import c15replay
             return c15replay.replay(ctx, data)
